@@ -208,6 +208,10 @@ def glob_re(seq, ci=False):
 # ------------------------------------------------------------------ regex-crate subset parser
 
 REGEX_META = set("\\.+*?()|[]{}^$#&-~")
+# escapes of the regex crate that are not literals (Perl classes are approximated by their ASCII members: enough to tell them from a
+# literal letter, and every witness is replayed with the real regex) and the control-character escapes
+ESC_CLASSES = {"d": "0-9", "D": "^0-9", "w": "A-Za-z0-9_", "W": "^A-Za-z0-9_", "s": " \t\n\r\x0b\x0c", "S": "^ \t\n\r\x0b\x0c"}
+ESC_CHARS = {"a": "\x07", "f": "\x0c", "t": "\t", "n": "\n", "r": "\r", "v": "\x0b"}
 
 
 def parse_regex(text):
@@ -272,9 +276,14 @@ def _re_seq(t, i):
             if i + 1 >= n:
                 raise Unsupported("regex: dangling escape")
             x = t[i + 1]
-            if x.isalnum() or x == "_":
-                raise Unsupported("regex: escape class \\%s" % x)
-            node = ("lit", x)
+            if x in ESC_CLASSES:
+                node = ("esc", x)
+            elif x in ESC_CHARS:
+                node = ("lit", ESC_CHARS[x])
+            elif x.isalnum() or x == "_":
+                raise Unsupported("regex: escape \\%s" % x)
+            else:
+                node = ("lit", x)
             i += 2
         elif c in "^$":
             raise Unsupported("regex: inner anchor")
@@ -350,6 +359,20 @@ def regex_node_re(nd, ci, dotall):
     k = nd[0]
     if k == "lit":
         return _chr(nd[1], ci)
+    if k == "esc":
+        spec = ESC_CLASSES[nd[1]]
+        neg = spec.startswith("^")
+        body = spec[1:] if neg else spec
+        parts, i = [], 0
+        while i < len(body):
+            if i + 2 < len(body) and body[i + 1] == "-":
+                parts.append(z3.Range(body[i], body[i + 2]))
+                i += 3
+            else:
+                parts.append(z3.Re(body[i]))
+                i += 1
+        u = _union(parts)
+        return z3.Intersect(ANY, z3.Complement(u)) if neg else u
     if k == "dot":
         return ANY if dotall else NOTNL
     if k == "class":
